@@ -55,6 +55,10 @@ def _serialize_check_stats(check_stats, dtype=None):
     """Serialize check statistics into json/yaml-compatible format."""
 
     def handle_stat_dtype(stat):
+        if isinstance(stat, (list, tuple)):
+            # collection-valued statistics, e.g. the allowed values of
+            # ``isin``: serialize the elements
+            return [handle_stat_dtype(item) for item in stat]
         if (
             dtype is not None
             and dtypes.is_datetime(dtype)
@@ -203,6 +207,8 @@ def _deserialize_check_stats(check, serialized_check_stats, dtype=None):
     """Deserialize check statistics and reconstruct check with options."""
 
     def handle_stat_dtype(stat):
+        if isinstance(stat, (list, tuple)):
+            return [handle_stat_dtype(item) for item in stat]
         try:
             if dtype is not None and dtypes.is_datetime(dtype):
                 try:
